@@ -42,6 +42,7 @@ var dsGenesisTime = time.Date(2022, 3, 1, 12, 0, 0, 0, time.UTC)
 func dsPinClock() {
 	now := dsGenesisTime.Add(time.Hour)
 	tmtime.SetVerifClock(func() time.Time { return now })
+	ed25519.SetVerifMemo(true)
 }
 
 // ---------------------------------------------------------------------------------------------
@@ -126,6 +127,7 @@ type dsWorld struct {
 	pvs       []types.MockPV // by validator index (validator-set order)
 	EagerOwn  bool           // a node processes its own queued messages immediately
 	UseFilePV bool
+	TrackSigned bool // the log of signed messages is part of the canonical state (C02 monitor)
 
 	mtx      sync.Mutex
 	msgs     []*dsMsg
@@ -247,6 +249,42 @@ func (w *dsWorld) intern(m *dsMsg) int {
 	return m.ID
 }
 
+// ensureVoteByKey re-creates (signs and interns) a harness-signed vote from its content key; used by
+// replays for votes that the exploration created on demand.
+func (w *dsWorld) ensureVoteByKey(key string) bool {
+	var idx, typ int
+	var h int64
+	var rd int32
+	var hashHex, sigHex string
+	parts := strings.Split(key, "/")
+	if len(parts) != 7 || parts[0] != "V" {
+		return false
+	}
+	fmt.Sscan(parts[1], &idx)
+	fmt.Sscan(parts[2], &h)
+	fmt.Sscan(parts[3], &rd)
+	fmt.Sscan(parts[4], &typ)
+	hashHex, sigHex = parts[5], parts[6]
+	_ = sigHex
+	bid := types.BlockID{}
+	if hashHex != "" {
+		found := false
+		for _, b := range w.knownBlockIDs() {
+			if fmt.Sprintf("%X", []byte(b.Hash)) == hashHex {
+				bid, found = b, true
+			}
+		}
+		if !found {
+			return false
+		}
+	}
+	w.byzVote(idx, tmproto.SignedMsgType(typ), rd, bid)
+	w.mtx.Lock()
+	_, ok := w.msgByKey[key]
+	w.mtx.Unlock()
+	return ok
+}
+
 func dsMsgRank(m *dsMsg) string {
 	kind := 0
 	if m.Kind == "vote" {
@@ -336,6 +374,7 @@ type dsNode struct {
 	bstore  *store.BlockStore
 	sstore  sm.Store
 	ownQ    []int
+	signed  []int // every message the node signed and queued, in order
 	halted  string
 	decided string // label of the decided block (height w.Height)
 	decHash []byte
@@ -403,7 +442,9 @@ func (n *dsNode) drain() {
 	var parts []*types.Part
 	flush := func() {
 		if pendingProp != nil {
-			n.ownQ = append(n.ownQ, n.w.internProposal(n.idx, pendingProp, parts, false))
+			id := n.w.internProposal(n.idx, pendingProp, parts, false)
+			n.ownQ = append(n.ownQ, id)
+			n.signed = append(n.signed, id)
 			pendingProp, parts = nil, nil
 		}
 	}
@@ -418,7 +459,9 @@ func (n *dsNode) drain() {
 				parts = append(parts, m.Part)
 			case *VoteMessage:
 				flush()
-				n.ownQ = append(n.ownQ, n.w.internVote(m.Vote, false))
+				id := n.w.internVote(m.Vote, false)
+				n.ownQ = append(n.ownQ, id)
+				n.signed = append(n.signed, id)
 			}
 		case <-n.cs.statsMsgQueue:
 		default:
@@ -452,7 +495,11 @@ func (n *dsNode) deliver(m *dsMsg) {
 		if !n.active() {
 			return
 		}
-		mi := msgInfo{Msg: mi.Msg, PeerID: dsPeerID(m.From)}
+		peer := dsPeerID(m.From)
+		if mi.PeerID != "" {
+			peer = mi.PeerID
+		}
+		mi := msgInfo{Msg: mi.Msg, PeerID: peer}
 		n.guarded(func() { n.cs.handleMsg(mi) })
 		n.afterStep()
 	}
@@ -578,6 +625,9 @@ func (n *dsNode) canon() string {
 	}
 	if rs.LastCommit != nil {
 		fmt.Fprintf(&b, "|lc%s", rs.LastCommit.BitArrayString())
+	}
+	if n.w.TrackSigned {
+		fmt.Fprintf(&b, "|sg%v", n.signed)
 	}
 	fmt.Fprintf(&b, "|t%v%s st%v|q%v|h%q|d%s", n.ticker.armed, dsTiString(n.ticker.cur), n.ticker.stale, n.ownQ, n.halted, n.decided)
 	return b.String()
